@@ -32,8 +32,9 @@ use serde::de::DeserializeOwned;
 use std::io::Read;
 
 /// True for a root scalar that makes its document a null document, which the multi-document
-/// functions and iterators skip: plain `~`, `null` or nothing at all. A scalar explicitly tagged
-/// `!!str` is a string whatever it looks like (`from_str::<String>("!!str null")` is `"null"`),
+/// functions and iterators skip: plain `~`, `null` or nothing at all, untagged or tagged `!!null`.
+/// A scalar with any other explicit tag is what the tag says, whatever it looks like
+/// (`from_str::<String>("!!str null")` is `"null"`, `--- !Start` selects the variant `Start`),
 /// so its document is not skipped.
 #[inline]
 fn is_null_document(
@@ -41,7 +42,8 @@ fn is_null_document(
     style: &saphyr_parser::ScalarStyle,
     tag: &crate::tags::SfTag,
 ) -> bool {
-    scalar_is_nullish(value, style) && tag != &crate::tags::SfTag::String
+    scalar_is_nullish(value, style)
+        && matches!(tag, crate::tags::SfTag::None | crate::tags::SfTag::Null)
 }
 
 #[cfg(feature = "garde")]
